@@ -53,6 +53,7 @@ pub fn configs(thorough: bool) -> Vec<EpCfg> {
             v.push(c);
         }
     }
+    v.extend(super::eps::large_id_configs("c06", "c06", thorough));
     // v5: aliases and a tight Maximum Packet Size on resume
     for role in [RoleK::Client, RoleK::Server] {
         let mut c = EpCfg::new(&cfg_name("c06", role, Some(Ver::V5), "alias+mps"), role, Some(Ver::V5));
